@@ -129,6 +129,7 @@ AcceptPair(e) ==
              /\ PairSlots(u.o, c.o, ok) /\ PairSlots(u.o2, c.o2, ok)
        [] u.k \in {"cmp", "cmpf", "ord", "from", "x2f", "codec"} -> [x \in (DOMAIN u) \ {"pr"} |-> u[x]] = [x \in (DOMAIN c) \ {"pr"} |-> c[x]]
        [] u.k \in {"wreset", "wload", "w"} -> [x \in (DOMAIN u) \ {"pr"} |-> u[x]] = [x \in (DOMAIN c) \ {"pr"} |-> c[x]]
+       [] OTHER -> FALSE
 
 Accept(e, P) ==
   CASE e.k \in {"bin", "bini", "un"} -> AcceptArith(e, P)
